@@ -79,7 +79,6 @@ PointBad(g) == CASE g[1] = -1 -> "NoRaise"
                  [] g[1] >= 2 /\ g[6] # 1 -> "PointOnParallel"
                  [] g[1] >= 1 /\ g[4] # 1 -> "PointOnArc"
                  [] g[1] >= 2 /\ g[7] # 1 -> "PointOnArc"
-                 [] g[1] = 2 /\ g[8] # 1 -> "PointsDistinct"
                  [] OTHER -> "ok"
 ZFails(r, j) ==
     LET a == Vec3(r.a)  b == Vec3(r.b)  c == Vec3(r.cs[j])
@@ -87,7 +86,8 @@ ZFails(r, j) ==
         got(v) == r.r[j][v]
         judged == LatJudged(a, b, c)
         bad(v) == IF PointBad(got(v)) # "ok" THEN PointBad(got(v))
-                  ELSE IF judged /\ got(v)[1] # LatCount(a, b, c) THEN "LatCountExact" ELSE "ok"
+                  ELSE IF judged /\ got(v)[1] # LatCount(a, b, c) THEN "LatCountExact"
+                  ELSE IF judged /\ got(v)[1] = 2 /\ got(v)[8] # 1 THEN "PointsDistinct" ELSE "ok"
     IN VarFails(r, nv, LAMBDA v : got(v)[1], bad, judged)
 JudgeZ(r) ==
     LET a == Vec3(r.a)  b == Vec3(r.b)
